@@ -6,9 +6,12 @@ package integration_tests
 // Output per history: the boundary log and the property's own verdict computed on that log.
 
 import (
+	"bytes"
 	"encoding/json"
 	"fmt"
 	"os"
+	"runtime"
+	"runtime/debug"
 	"strconv"
 	"sync"
 	"testing"
@@ -19,13 +22,17 @@ import (
 
 type vAct struct {
 	C    int      `json:"c"`
-	A    string   `json:"a"` // auth | req | tcp | udp | burst | close | revoke | grant
+	A    string   `json:"a"` // auth | req | tcp | udp | burst | close | revoke | grant | open
 	Req  vReqSpec `json:"req"`
 	Ft   int64    `json:"ft"`
 	Addr string   `json:"addr"`
 	Cred string   `json:"cred"` // revoke / grant: the credential whose standing with the authenticator changes now
 	// burst: these auth requests are sent concurrently on the same connection
 	Burst []vReqSpec `json:"burst"`
+	// open: connection C is dialled NOW (a connection that has an `open` step is not dialled when the history starts):
+	// a new connection accepted by a server that has served - and may have seen the end of - other connections.
+	// From (optional): dial from the local socket of that connection, which the history has closed before.
+	From *int `json:"from"`
 }
 
 type vHist struct {
@@ -36,6 +43,10 @@ type vHist struct {
 	Acts  []vAct `json:"acts"`
 	// Pol: credentials whose verdict depends on the presenting connection / the attempt number / tx / time
 	Pol map[string]*vPol `json:"pol"`
+	// Gmp1: the history is run in the serial phase of the test, alone in the process, with GOMAXPROCS(1) and the
+	// collector off: goroutines of the server run one at a time and per-P / per-cycle caches of the runtime
+	// (sync.Pool) behave reproducibly.  Other histories run six at a time under the default scheduling.
+	Gmp1 bool `json:"gmp1"`
 }
 
 type vHistOut struct {
@@ -47,7 +58,7 @@ type vHistOut struct {
 }
 
 func (cl *vClient) perform(a vAct) {
-	if cl.closed {
+	if cl.closed.Load() {
 		return
 	}
 	switch a.A {
@@ -78,6 +89,100 @@ func (cl *vClient) perform(a vAct) {
 	}
 }
 
+// vRun is one history in progress: the connections dialled so far (connection index -> client).
+type vRun struct {
+	e   *vEnv
+	mu  sync.Mutex
+	cls []*vClient
+	err string
+}
+
+func (r *vRun) get(c int) *vClient {
+	r.mu.Lock()
+	defer r.mu.Unlock()
+	if c < 0 || c >= len(r.cls) {
+		return nil
+	}
+	return r.cls[c]
+}
+
+func (r *vRun) live() int {
+	r.mu.Lock()
+	defer r.mu.Unlock()
+	n := 0
+	for _, cl := range r.cls {
+		if cl != nil && !cl.closed.Load() {
+			n++
+		}
+	}
+	return n
+}
+
+// vServing counts the goroutines of this process that are inside (*serverImpl).handleClient: one per QUIC connection
+// some server of the process is still serving (the function returns when the connection has ended and everything
+// handleClient does at the end of a connection has been done).
+func vServing() int {
+	buf := make([]byte, 1<<20)
+	for {
+		n := runtime.Stack(buf, true)
+		if n < len(buf) {
+			buf = buf[:n]
+			break
+		}
+		buf = make([]byte, 2*len(buf))
+	}
+	return bytes.Count(buf, []byte(").handleClient("))
+}
+
+var vSerialPhase bool // set while the serial (GOMAXPROCS(1)) histories run: nothing else of the harness is running
+
+// open dials connection a.C now.  Before it, the server is given time to finish the connections the history has closed
+// (ServeQUICConn returning, the tail of handleClient and whatever else the server does when a connection ends): a
+// fixed pause and, when this history is alone in the process, until no more handleClient goroutines are left than the
+// history has live connections.
+func (r *vRun) open(a vAct) {
+	if a.C < 0 || a.C >= len(r.cls) || r.get(a.C) != nil {
+		return
+	}
+	time.Sleep(20 * time.Millisecond)
+	if vSerialPhase {
+		deadline := time.Now().Add(3 * time.Second)
+		for vServing() > r.live() && time.Now().Before(deadline) {
+			time.Sleep(5 * time.Millisecond)
+		}
+		runtime.Gosched()
+	}
+	var cl *vClient
+	var err error
+	if old := (*vClient)(nil); a.From != nil {
+		if old = r.get(*a.From); old != nil && old.closed.Load() {
+			cl, err = vDialFrom(r.e, a.C, old)
+		}
+	}
+	if cl == nil && err == nil {
+		cl, err = vDial(r.e, a.C)
+	}
+	if err != nil {
+		r.mu.Lock()
+		r.err = "dial (open step of connection " + strconv.Itoa(a.C) + "): " + err.Error()
+		r.mu.Unlock()
+		return
+	}
+	r.mu.Lock()
+	r.cls[a.C] = cl
+	r.mu.Unlock()
+}
+
+func (r *vRun) perform(a vAct) {
+	if a.A == "open" {
+		r.open(a)
+		return
+	}
+	if cl := r.get(a.C); cl != nil {
+		cl.perform(a)
+	}
+}
+
 func vRunHistory(h vHist) (out vHistOut) {
 	defer func() {
 		if r := recover(); r != nil {
@@ -90,15 +195,30 @@ func vRunHistory(h vHist) (out vHistOut) {
 		return
 	}
 	defer e.stop()
-	cls := make([]*vClient, h.NConn)
+	r := &vRun{e: e, cls: make([]*vClient, h.NConn)}
+	defer func() {
+		for _, cl := range r.cls {
+			if cl != nil {
+				cl.shutdown()
+			}
+		}
+	}()
+	late := map[int]bool{}
+	for _, a := range h.Acts {
+		if a.A == "open" {
+			late[a.C] = true
+		}
+	}
 	for c := 0; c < h.NConn; c++ {
+		if late[c] {
+			continue
+		}
 		cl, derr := vDial(e, c)
 		if derr != nil {
 			out.Err = "dial: " + derr.Error()
 			return
 		}
-		cls[c] = cl
-		defer cl.shutdown()
+		r.cls[c] = cl
 	}
 	if h.Par {
 		var wg sync.WaitGroup
@@ -108,7 +228,7 @@ func vRunHistory(h vHist) (out vHistOut) {
 				defer wg.Done()
 				for _, a := range h.Acts {
 					if a.C == c {
-						cls[c].perform(a)
+						r.perform(a)
 					}
 				}
 			}(c)
@@ -116,14 +236,13 @@ func vRunHistory(h vHist) (out vHistOut) {
 		wg.Wait()
 	} else {
 		for _, a := range h.Acts {
-			if a.C >= 0 && a.C < h.NConn {
-				cls[a.C].perform(a)
-			}
+			r.perform(a)
 		}
 	}
 	// let asynchronous server goroutines (session manager, disconnect logging) settle
 	time.Sleep(25 * time.Millisecond)
 	out.Log = e.snapshot()
+	out.Err = r.err
 	out.OK, out.Why = vVerdictC01(h, out.Log)
 	return
 }
@@ -143,9 +262,38 @@ func vVerdictC01(h vHist, log []vEntry) (bool, string) {
 	idOf := map[int]string{}
 	pendingStream := map[string]bool{}
 	inCall := map[int]bool{}
+	// inflight[c]: the requests the client has sent on c that have not been answered yet (a request whose round trip
+	// failed at transport level stays: the server may still be working on it)
+	inflight := map[int]map[int]vEntry{}
+	opened := map[int]bool{}
 	for _, x := range log {
 		switch x.K {
+		case "open":
+			// a NEW connection (the history may have seen any number of other connections come, be accepted and go):
+			// it starts with nothing - whatever the verdicts on earlier connections were
+			if opened[x.C] || accepted[x.C] || closedC[x.C] {
+				return false, fmt.Sprintf("seq %d: harness inconsistency: connection index %d used twice", x.S, x.C)
+			}
+			opened[x.C] = true
+		case "req":
+			if inflight[x.C] == nil {
+				inflight[x.C] = map[int]vEntry{}
+			}
+			inflight[x.C][x.Rid] = x
 		case "authcall":
+			// the authenticator is consulted for the authentication request only: POST, authority exactly
+			// protocol.URLHost, path exactly protocol.URLPath (x.AF, computed by the client from what it sent), and
+			// with the credentials of that request
+			found := false
+			for _, r := range inflight[x.C] {
+				if r.AF && r.Auth == x.Auth {
+					found = true
+				}
+			}
+			if !found && x.C >= 0 {
+				return false, fmt.Sprintf("seq %d: authenticator consulted (credentials %q) for connection %d on which no authentication request "+
+					"with these credentials is in flight%s", x.S, x.Auth, x.C, vInflight(inflight[x.C]))
+			}
 			if inCall[x.C] {
 				return false, fmt.Sprintf("seq %d: two requests of connection %d are inside Authenticate at once (authMutex)", x.S, x.C)
 			}
@@ -183,8 +331,19 @@ func vVerdictC01(h vHist, log []vEntry) (bool, string) {
 				return false, fmt.Sprintf("seq %d: proxy stream on authenticated connection %d got no reply (access revoked?) res=%s", x.S, x.C, x.Res)
 			}
 		case "resp":
+			rq, known := inflight[x.C][x.Rid]
+			if x.Status >= 0 {
+				delete(inflight[x.C], x.Rid)
+			}
 			if x.Status == protocol.StatusAuthOK && !accepted[x.C] {
 				return false, fmt.Sprintf("seq %d: status 233 on connection %d although no Authenticate call made for that connection has returned an accepting verdict%s", x.S, x.C, vElsewhere(log, x, accepted))
+			}
+			if known && !rq.AF && x.Status == protocol.StatusAuthOK {
+				return false, fmt.Sprintf("seq %d: %s %q %q on connection %d is not the authentication request and was answered 233", x.S, rq.M, rq.H, rq.P, x.C)
+			}
+			if known && !rq.AF && x.Status >= 0 && x.OSt >= 0 && x.Status != x.OSt {
+				return false, fmt.Sprintf("seq %d: %s %q %q on connection %d is not the authentication request and was answered %d, the masquerade handler alone answers %d",
+					x.S, rq.M, rq.H, rq.P, x.C, x.Status, x.OSt)
 			}
 		case "online":
 			if x.OK {
@@ -245,6 +404,14 @@ func vVerdictC01(h vHist, log []vEntry) (bool, string) {
 	return true, ""
 }
 
+func vInflight(m map[int]vEntry) string {
+	s := ""
+	for _, r := range m {
+		s += fmt.Sprintf(" (in flight: %s %q %q)", r.M, r.H, r.P)
+	}
+	return s
+}
+
 // vElsewhere names, for the diagnosis only, the other connections that had been accepted when entry x was logged.
 func vElsewhere(log []vEntry, x vEntry, accepted map[int]bool) string {
 	s := ""
@@ -268,26 +435,48 @@ func TestVerifC01(t *testing.T) {
 	}
 	sem := make(chan struct{}, par)
 	var wg sync.WaitGroup
+	hs := make([]vHist, len(raw))
 	for i, r := range raw {
-		var h vHist
-		if err := json.Unmarshal(r, &h); err != nil {
+		if err := json.Unmarshal(r, &hs[i]); err != nil {
 			t.Fatal(err)
+		}
+	}
+	run1 := func(i int) {
+		o := vRunHistory(hs[i])
+		o.I = i
+		if o.Err != "" {
+			o.OK = false
+			o.Why = "harness error: " + o.Err
+		}
+		outs[i] = o
+	}
+	for i := range hs {
+		if hs[i].Gmp1 {
+			continue
 		}
 		wg.Add(1)
 		sem <- struct{}{}
-		go func(i int, h vHist) {
+		go func(i int) {
 			defer wg.Done()
 			defer func() { <-sem }()
-			o := vRunHistory(h)
-			o.I = i
-			if o.Err != "" {
-				o.OK = false
-				o.Why = "harness error: " + o.Err
-			}
-			outs[i] = o
-		}(i, h)
+			run1(i)
+		}(i)
 	}
 	wg.Wait()
+	// serial phase: one history at a time, one P, collector off (memory: a few histories' worth)
+	func() {
+		time.Sleep(50 * time.Millisecond)
+		defer runtime.GOMAXPROCS(runtime.GOMAXPROCS(1))
+		defer debug.SetGCPercent(debug.SetGCPercent(-1))
+		vSerialPhase = true
+		defer func() { vSerialPhase = false }()
+		for i := range hs {
+			if hs[i].Gmp1 {
+				run1(i)
+				runtime.GC() // between two histories (each has a server of its own): the collector is off while one runs
+			}
+		}
+	}()
 	for _, o := range outs {
 		w.Emit(o)
 	}
